@@ -409,7 +409,8 @@ def _obj_task_op(rng, npids, ncont):
     if r < 0.47:
         return {"op": "store", "pid": None, "c": rng.randrange(ncont), "kind": "str"}
     if r < 0.65:
-        ref = ["c", rng.randrange(ncont)] if rng.random() < 0.85 else ["x", 0]
+        q = rng.random()
+        ref = ["c", rng.randrange(ncont)] if q < 0.8 else (["x", 0] if q < 0.93 else ["C", rng.randrange(ncont)])
         return {"op": "tag", "pid": rng.randrange(npids), "cid": ref}
     if r < 0.92:
         return {"op": "delete", "pid": rng.randrange(npids)}
@@ -582,6 +583,7 @@ def single_calls(extended=False):
             ("store-mem-stream", _st(2, 1, kind="mem", short=2)),
             ("tag-missing", {"op": "tag", "pid": 2, "cid": ["x", 1]}),
             ("tag-bound", {"op": "tag", "pid": 0, "cid": ["c", 1]}),
+            ("tag-upper-case-cid", {"op": "tag", "pid": 2, "cid": ["C", 0]}),
             ("tag-bound-same", {"op": "tag", "pid": 0, "cid": ["c", 0]}),
             ("delete-p2-unknown", {"op": "delete", "pid": 2}),
             ("smeta-p0-f1-file", {"op": "smeta", "pid": 0, "fmt": 1, "m": 0, "kind": "file"}),
@@ -595,7 +597,8 @@ def single_header(seed=0, blksize=None, write_through=False, mp=False, csize=(5,
     cfg = cfg or gen_cfg(None, simple=True)
     return {"seed": seed, "cfg": cfg,
             "knobs": {"blksize": blksize, "write_through": write_through, "shuffle_listdir": True, "mp": mp},
-            "pids": ["p0", "p1", "p2"], "formats": [cfg["store_metadata_namespace"], "f1"],
+            # (non-ASCII on purpose: byte length != character count, a torn rewrite can split a character)
+            "pids": ["p0", "p\u00e91", "\U0001F600p2"], "formats": [cfg["store_metadata_namespace"], "f1"],
             "contents": [[csize[0], 3], [csize[1], 7]], "mcontents": [[6, 1], [11, 2], [3, 3]]}
 
 
